@@ -22,6 +22,7 @@ import (
 	"github.com/notaryproject/notation-go/zzverif/lib/mocks"
 	"github.com/notaryproject/notation-go/zzverif/lib/pki"
 	"github.com/notaryproject/notation-go/zzverif/lib/vt"
+	fw "github.com/notaryproject/notation-plugin-framework-go/plugin"
 	"github.com/opencontainers/go-digest"
 	ocispec "github.com/opencontainers/image-spec/specs-go/v1"
 
@@ -43,6 +44,12 @@ type caseT struct {
 	Action  string `json:"action"` // enforce, log, skip
 	Scheme  int    `json:"scheme"` // 0 x509, 1 signingAuthority
 	Format  int    `json:"format"`
+	// Plugin 1: the signature names a verification plugin whose only verification capability is trusted
+	// identity (verdict: success) - revocation is still the library's job and must be performed natively.
+	Plugin int `json:"plugin"`
+	// Prior 1: the same verifier instance verified the same signature before while the validator answered OK
+	// for every certificate; the judged verification must reflect the validator's current answer.
+	Prior int `json:"prior"`
 }
 
 func (c caseT) vecString() string {
@@ -66,8 +73,16 @@ func (w *world) run(r *hx.Run, c caseT) {
 	ch := w.chains[c.N]
 	scheme := []string{forge.SchemeX509, forge.SchemeSA}[c.Scheme]
 	storeType := []string{"ca", "signingAuthority"}[c.Scheme]
-	env := w.envs[fmt.Sprintf("%d/%d/%d", c.N, c.Scheme, c.Format)]
+	env := w.envs[fmt.Sprintf("%d/%d/%d/%d", c.N, c.Scheme, c.Format, c.Plugin)]
+	priorPhase := c.Prior == 1
 	script := func(chain []*x509.Certificate) ([]*result.CertRevocationResult, error) {
+		if priorPhase {
+			out := make([]*result.CertRevocationResult, len(chain))
+			for i := range chain {
+				out[i] = &result.CertRevocationResult{Result: result.ResultOK, RevocationMethod: result.RevocationMethodOCSP}
+			}
+			return out, nil
+		}
 		if c.VErr {
 			return nil, errors.New("mock: validator failed")
 		}
@@ -104,15 +119,32 @@ func (w *world) run(r *hx.Run, c caseT) {
 		lv.Override = map[vt.T]vt.A{trustpolicy.TypeRevocation: vt.A(c.Action)}
 	}
 	opts.OCITrustPolicy = vt.OCIDoc(lv.SV(), []string{storeType + ":s"}, []string{"*"})
+	if c.Plugin == 1 {
+		mgr := mocks.NewManager()
+		mgr.Plugins["p"] = &mocks.VerifyPlugin{Name: "p", Version: "1.0.0", Capabilities: []fw.Capability{fw.CapabilityTrustedIdentityVerifier}, ProcessAll: true}
+		opts.PluginManager = mgr
+	}
 	ts := mocks.NewTrustStore().Put(storeType, "s", ch.Root().Cert)
 	v, err := verifier.NewVerifierWithOptions(ts, opts)
 	if err != nil {
 		r.Infra("verifier: %v", err)
 		return
 	}
+	if c.Prior == 1 {
+		r.Eval(1)
+		_, _ = v.Verify(ctx, w.desc, env, notation.VerifierVerifyOptions{ArtifactReference: "reg.io/r@" + w.desc.Digest.String(), SignatureMediaType: forge.Formats[c.Format]})
+		priorPhase = false
+		primary.Calls, other.Calls = nil, nil
+	}
 	r.Eval(1)
 	outcome, verr := v.Verify(ctx, w.desc, env, notation.VerifierVerifyOptions{ArtifactReference: "reg.io/r@" + w.desc.Digest.String(), SignatureMediaType: forge.Formats[c.Format]})
 	bad := func(key, what string) {
+		if c.Plugin == 1 {
+			key += ":with-trusted-identity-plugin"
+		}
+		if c.Prior == 1 {
+			key += ":after-earlier-ok-verification-on-same-verifier"
+		}
 		r.Violation(key, fmt.Sprintf("%s | n=%d vector=%s method=%v servers=%d validatorError=%v iface=%d action=%s scheme=%s", what, c.N, c.vecString(), methods[c.Method], c.Servers, c.VErr, c.Iface, c.Action, scheme), c)
 	}
 	if outcome == nil {
@@ -260,7 +292,13 @@ func main() {
 		for s := 0; s < 2; s++ {
 			for f := 0; f < 2; f++ {
 				ch := w.chains[n]
-				w.envs[fmt.Sprintf("%d/%d/%d", n, s, f)] = forge.Build(forge.Spec{Format: forge.Formats[f], Chain: ch.X509(), Key: ch.Leaf().Key, Payload: forge.PayloadFor(w.desc), Scheme: []string{forge.SchemeX509, forge.SchemeSA}[s], SigningTime: w.signTime})
+				for pl := 0; pl < 2; pl++ {
+					sp := forge.Spec{Format: forge.Formats[f], Chain: ch.X509(), Key: ch.Leaf().Key, Payload: forge.PayloadFor(w.desc), Scheme: []string{forge.SchemeX509, forge.SchemeSA}[s], SigningTime: w.signTime}
+					if pl == 1 {
+						sp.Ext = []forge.Attr{{Key: forge.HdrPlugin, Critical: true, Value: "p"}}
+					}
+					w.envs[fmt.Sprintf("%d/%d/%d/%d", n, s, f, pl)] = forge.Build(sp)
+				}
 			}
 		}
 	}
@@ -306,6 +344,12 @@ func main() {
 										continue
 									}
 									cases = append(cases, caseT{N: n, Vec: vec, Method: m, Servers: sv, Iface: iface, Action: act, Scheme: sc, Format: f})
+									if m == 0 && sv == 0 && iface == 0 {
+										cases = append(cases, caseT{N: n, Vec: vec, Iface: iface, Action: act, Scheme: sc, Format: f, Plugin: 1})
+									}
+									if m == 0 && sv == 0 {
+										cases = append(cases, caseT{N: n, Vec: vec, Iface: iface, Action: act, Scheme: sc, Format: f, Prior: 1})
+									}
 								}
 							}
 						}
